@@ -2,7 +2,7 @@
    Block structure is proved for every number of groups and effect columns; the choice of the
    effect coding is the C03 analysis applied by Model.eval with one uniform flag (finding
    KF-C05-1 lists the effect expressions for which that flag is not what C03 would choose). *)
-From Verif Require Import Base Coding Contrasts Frame Eval Algebra Design DesignStructure DesignCoding GroupCoding.
+From Verif Require Import Base Coding Contrasts Frame Eval Algebra Design DesignStructure DesignCoding GroupCoding GroupAsCommon.
 From Verif Require Tie.
 Local Close Scope Qc_scope.
 Local Close Scope Q_scope.
@@ -97,6 +97,45 @@ Theorem C05_refuted_uniform_flag :
   ~ agrees_on (gc_effects s).
 Proof. cbv zeta. destruct uniform_flag_refuted as (_ & _ & H1 & H2 & H3). auto. Qed.
 
+(* A group-specific block IS a common interaction term with the grouping factor written first and coded in
+   full: for every group-specific term of a built design the rows are the row-wise Kronecker product over
+   (factor components ++ effect components), the factor components in full coding, the effect components with
+   the term's flag; for a group intercept they are the factor rows.  (C05_rank.v then reads that term as
+   codings over the factors and derives rank and span on crossed data.) *)
+Theorem C05_group_block_is_common_interaction : forall cx data m ds,
+  eval_model cx data m = Ok ds ->
+  forall dg, In dg (ds_group ds) ->
+  exists g tg,
+    In g (groups m) /\ set_type_gterm cx data g = Ok tg /\
+    let flag := group_spans (groups m) g in
+    set_data_gterm (ds_nrows ds) tg flag = Ok dg /\
+    Forall (fun d => dc_spans d = true) (dg_factor dg) /\
+    Forall (fun d => dc_spans d = flag) (dt_comps (dg_expr dg)) /\
+    match gexpr g with
+    | CI => dg_rows dg = firstn (ds_nrows ds) (factor_rows (dg_factor dg))
+    | _ => gfactor g <> CT [] -> dg_rows dg = factor_rows (dg_factor dg ++ dt_comps (dg_expr dg))
+    end.
+Proof. exact group_term_is_common_interaction. Qed.
+
+(* ... literally: building the common term "g:e" with g in full gives the same rows, and its labels gr:lv
+   correspond position by position to the labels lv|gr of the group term *)
+Theorem C05_group_term_as_common_term : forall nrows tg flag dg s ename cs,
+  set_data_gterm nrows tg flag = Ok dg -> tg_expr tg = TTTerm ename cs ->
+  tg_factor tg <> [] -> spans_factor_full s tg flag ->
+  Forall nonempty_labels (dg_factor dg ++ dt_comps (dg_expr dg)) ->
+  exists dt levels labs,
+    set_data_term nrows (as_common tg) s = Ok dt /\
+    dt_comps dt = dg_factor dg ++ dt_comps (dg_expr dg) /\
+    dt_rows dt = dg_rows dg /\
+    dt_labels (dg_expr dg) = Some levels /\
+    dt_labels dt = Some labs /\
+    labs = flat_map (fun gr => map (fun lv => (gr ++ ":" ++ lv)%string) levels) (gfactor_labels dg) /\
+    dg_labels dg = flat_map (fun gr => map (fun lv => (lv ++ "|" ++ gr)%string) levels) (gfactor_labels dg) /\
+    Forall2 label_corr (dg_labels dg) labs.
+Proof. exact gterm_as_common_term. Qed.
+
+Print Assumptions C05_group_block_is_common_interaction.
+Print Assumptions C05_group_term_as_common_term.
 Print Assumptions C05_effect_coding_rule.
 Print Assumptions C05_rule_agrees_categoric_with_intercept.
 Print Assumptions C05_refuted_uniform_flag.
